@@ -16,6 +16,15 @@ CHECKS = {
  "C19": ("exploration", "runtime monitoring: adversarially related transcript pairs judged against an independent canonical encoding; commitment alteration lattice",
          "Seeded generation of typed item sequences and related pairs (boundary/domain shifts, split/merge, retyping, permutation, framing pasted as bytes crafted against weakened framings); a digest collision between sequences whose canonical encodings differ is the violation; commitments must refuse every altered tuple/decommitment.",
          "Abstract identity of items computed by harness code; blake3 collision resistance.", "5/C19"),
+ "C08": ("exploration", "runtime monitoring: seeded operation histories through real handlers with per-step oracles (key unchanged, material consistent, shares changed, mixed epochs useless, stale signer => no signature)",
+         "Histories over {refresh, serialise+restore, derive, sign} for FROST, Taproot, Doerner and CMP on (n,t) lattices; after each refresh the oracles of the statement are evaluated, including every enumerated mixed-epoch reconstruction set and sessions with 1..t stale signers.",
+         "Epoch snapshots through the documented encoders; t=0 is exempt from 'share changed' (mathematically impossible).", "5/C08"),
+ "C14": ("exploration", "runtime monitoring: differential against a reference BIP-32 CKDpub on every party after real key generations, plus material oracle and signing under the reference-derived key",
+         "Derivation paths of length <=3 over boundary and random indices, interleaved with refresh, for all four protocols; child key and chain code compared with the reference on every party, derived sharing validated, signing judged by the independent verifier.",
+         "Reference BIP-32 checked against test vector 1; indices >= 2^31 out of scope.", "5/C14"),
+ "C15": ("exploration", "runtime monitoring: codec round trips with deep (reflective) equality and behavioural reuse, CBOR-tree single-node malformations and semantic corruptions with an error-or-valid oracle",
+         "Every result type is encoded, restored with its Empty* constructor, compared deeply (including unexported state) and reused in later sessions mixed with originals; ~1000+ single-node malformations, semantic corruptions and random corruptions per run must give an error or an object satisfying the listed validity rules; panics and silently-empty objects are violations. Known (unrepaired) findings are listed in known_findings.jsonl.",
+         "Validity rules limited to those the statement lists.", "5/C15"),
  "C10": ("exploration", "runtime monitoring: direct drive of all 15 provers/verifiers with reflection-generated perturbations of every public input, proof field and the context",
          "Completeness on a boundary lattice of witnesses (0, +-1, +-(2^l-1), random, scalar 1/q-1) and binding by substitution: every public-input field replaced by another valid instance's, same-typed inputs swapped, context changed, every proof field replaced by the same field of another valid proof (same and other statement) and by +-1/negation/zero, and a witness 600 bits beyond the range; an accepted perturbed triple is the violation.",
          "Soundness is probed by substitution, not established; panics inside Verify are tallied as not-accepted.", "5/C10"),
